@@ -119,7 +119,7 @@ var nativeNames = []string{"", "forEach", "map", "filter", "some", "every", "red
 	"replace", "stringify", "parse", "call", "apply", "eval", "toFixed", "toString", "toExponential",
 	"toPrecision", "Function", "RegExp", "Array", "decodeURIComponent", "decodeURI", "defineProperty",
 	"create", "keys", "getPrototypeOf", "bind", "getTime", "valueOf", "exec", "hasOwnProperty",
-	"Error", "EvalError", "RangeError", "ReferenceError", "SyntaxError", "TypeError", "URIError"}
+	"Error", "EvalError", "RangeError", "ReferenceError", "SyntaxError", "TypeError", "URIError", "defineProperties"}
 
 var errNames = []string{"Error", "EvalError", "RangeError", "ReferenceError", "SyntaxError", "TypeError", "URIError"}
 
@@ -220,6 +220,8 @@ function rec(n) { return rec(n + 1) } function rc(n) { [1].forEach(function () {
 var RG = { get x() { return RG.x } }; function ra(n) { return ok(ra(n + 1), 2) } function rf(n) { try { zz } finally { rf(n + 1) } }
 function RC(n) { this.c = new RC(n + 1) } function rs(n) { [2, 1].sort(function (a, b) { return rs(n + 1) }) }
 Object.defineProperty(Object.prototype, "okp", {value: ok, writable: true, configurable: true});
+function K() {} K.prototype.m = function () { return 1 }; K.prototype.self = function () { return this }; var NS = {K: K};
+var OE = {e: eval}; var FA = Object.freeze([1, 2, 3]); var FL = [1, 2, 3]; Object.defineProperty(FL, "length", {writable: false});
 var EV = eval; var BAD = {toString: 1, valueOf: 1}; var FROZEN = Object.freeze({a: 1}); var __r;
 var __facts = (function () {
   // the built-ins as they were before any script could rebind them
@@ -311,6 +313,28 @@ func (p *prog) prior(w *fileBuf, lv *lvl) {
 			w.w("ok();")
 		case 1:
 			lv.events = append(lv.events, ev("KDot", w.here()))
+			if r.Intn(4) == 0 { // the receiver is a new expression: the call site is the `new` keyword
+				a := w.here()
+				switch r.Intn(4) {
+				case 0:
+					w.w("new ")
+					lv.events = append(lv.events[:len(lv.events)-1], ev("KIdent", w.here()), ev("KDot", a))
+					w.w("K().m();")
+				case 1:
+					w.w("new ")
+					lv.events = append(lv.events[:len(lv.events)-1], ev("KIdent", w.here()), ev("KBracket", a))
+					w.w("K()[\"m\"](1);")
+				case 2:
+					w.w("new ")
+					lv.events = append(lv.events[:len(lv.events)-1], ev("KDot", w.here()), ev("KDot", a))
+					w.w("NS.K().m();")
+				default:
+					w.w("new ")
+					lv.events = append(lv.events[:len(lv.events)-1], ev("KIdent", w.here()), ev("KDot", a), ev("KDot", a))
+					w.w("K().self().m();")
+				}
+				return
+			}
 			w.w(Pick(r, []string{"H.ok();", "H.h.ok();", "H . ok ( );", "this.okp();", "this.okp(1, 2);", "this.okp.call(null);"}))
 		case 2:
 			lv.events = append(lv.events, ev("KBracket", w.here()))
@@ -815,11 +839,25 @@ func (p *prog) emitCall(w *fileBuf, li, si int) {
 				ref, form = fmt.Sprintf("M%d[\"m\"]", s.n), "KBracket"
 			}
 		}
+		newRecv := false
 		if s.viaThis {
 			ref, form = fmt.Sprintf("this.f%d", s.n), "KDot"
-			if r.Intn(4) == 0 {
+			switch r.Intn(6) {
+			case 0:
 				ref, form = fmt.Sprintf("this[\"f%d\"]", s.n), "KBracket"
+			case 1, 2: // receiver is a new expression (every object inherits fN): the site is the `new` keyword
+				if s.call != "new" {
+					newRecv = true
+					ref, form = fmt.Sprintf("new K().f%d", s.n), "KDot"
+					if r.Intn(3) == 0 {
+						ref, form = fmt.Sprintf("new K()[\"f%d\"]", s.n), "KBracket"
+					}
+				}
 			}
+		}
+		if newRecv { // `new K()` is evaluated (and recorded) first
+			at := w.here()
+			lv.events = append(lv.events, fmt.Sprintf("EvCall KIdent %d %d %d", at.idx+4, at.line, at.col+4))
 		}
 		switch s.call {
 		case "plain":
@@ -933,7 +971,7 @@ var raiseKinds = []raiseKind{
 	{10, 6, ""}, {11, 2, ""}, {12, 2, ""}, {13, 2, "noat"}, {14, 2, ""}, {15, 1, ""}, {16, 1, ""}, {17, 1, ""},
 	{18, 2, ""}, {19, 2, ""}, {20, 1, ""}, {21, 2, "noat"}, {22, 1, "noat"}, {23, 2, "noat"}, {24, 2, ""}, {25, 1, ""},
 	{26, 1, ""}, {27, 1, ""}, {28, 1, ""}, {29, 1, ""}, {30, 1, ""}, {31, 1, ""}, {32, 1, ""}, {33, 1, "noat"},
-	{34, 1, ""}, {35, 1, ""}, {36, 1, ""}, {37, 1, ""},
+	{34, 1, ""}, {35, 1, ""}, {36, 1, ""}, {37, 1, ""}, {38, 3, ""},
 	{41, 1, ""}, {42, 1, ""}, {43, 1, ""}, {44, 1, ""}, {45, 1, ""}, {46, 1, ""}, {47, 1, ""},
 	{51, 1, ""}, {52, 1, ""}, {53, 1, ""}, {54, 1, ""}, {55, 1, ""}, {56, 1, ""}, {57, 1, ""},
 }
@@ -984,7 +1022,7 @@ func (p *prog) emitRaise(w *fileBuf, li int) {
 	case 1:
 		rat("KIdent", mark(Pick(r, []string{"¤U()", "¤U(1, 2)", "1 + ¤U()", "[¤U()]"})))
 	case 2:
-		rat("KDot", mark(Pick(r, []string{"¤O.nope()", "¤O.k()", "¤H.h.nope(1)", "¤NUM.x()", "¤this.nope()", "¤this.nope9(1, 2)", "¤this.okp.nope()"})))
+		rat("KDot", mark(Pick(r, []string{"¤O.nope()", "¤O.k()", "¤H.h.nope(1)", "¤NUM.x()", "¤this.nope()", "¤this.nope9(1, 2)", "¤this.okp.nope()", "¤new K().nope()", "¤new K().self().nope(1)"})))
 	case 3:
 		rat("KBracket", mark(Pick(r, []string{"¤O[\"k\"]()", "¤O['no' + 'pe']()", "¤H[\"h\"][\"k\"]()"})))
 	case 4:
@@ -1020,7 +1058,7 @@ func (p *prog) emitRaise(w *fileBuf, li int) {
 			noat(at)
 		}
 	case 7:
-		rat("KDot", mark(Pick(r, []string{"¤U.x", "¤NUL.x", "¤null.x", "¤undefined.y", "1 + ¤U.x", "¤O.q.z", "ok(¤U.x)", "¤this.nope9.x", "¤this.nope9.x.y"})))
+		rat("KDot", mark(Pick(r, []string{"¤U.x", "¤NUL.x", "¤null.x", "¤undefined.y", "1 + ¤U.x", "¤O.q.z", "ok(¤U.x)", "¤this.nope9.x", "¤this.nope9.x.y", "¤new K().a.b"})))
 	case 8:
 		rat("KBracket", mark(Pick(r, []string{"¤U[\"x\"]", "¤NUL[0]", "¤null['x']", "¤O[\"q\"][1]"})))
 	case 9:
@@ -1053,9 +1091,25 @@ func (p *prog) emitRaise(w *fileBuf, li int) {
 		call("KDot", mark(Pick(r, []string{"¤NUM.toPrecision(0)", "¤NUM.toPrecision(-3)", "¤NUM.toPrecision(" + p.badArg(4) + ")", "¤NUM.toPrecision(" + p.badArg(4) + ")"})))
 		p.nativeTop("toPrecision")
 	case 18:
-		at := mark("¤eval(" + jsQuote(Pick(r, []string{"var x = ;", "a b", "1 +* 2", "if (", "}", "x = 1;\n y = @", "for (;;", "f(,)"})) + ")")
-		call("KIdent", at)
-		noat(at)
+		bad := jsQuote(Pick(r, []string{"var x = ;", "a b", "1 +* 2", "if (", "}", "x = 1;\n y = @", "for (;;", "f(,)"}))
+		switch r.Intn(7) {
+		case 0, 1, 2:
+			at := mark("¤eval(" + bad + ")")
+			call("KIdent", at)
+			noat(at)
+		case 3: // indirect: the built-in's frame is entered, the text is parsed before any scope of its own
+			call("KIdent", mark("¤EV("+bad+")"))
+			p.nativeTop("eval")
+		case 4:
+			call("KDot", mark("¤OE.e("+bad+")"))
+			p.nativeTop("eval")
+		case 5:
+			call("KDot", mark("¤eval.call(null, "+bad+")"))
+			p.nativeTop("call", "eval")
+		default:
+			call("KDot", mark("¤["+bad+"].map(eval)"))
+			p.nativeTop("map", "eval")
+		}
 	case 19:
 		if r.Intn(2) == 0 {
 			at := mark("new ¤Function(" + Pick(r, []string{"\"a\", \"return +;\"", "\"return (\"", "\"a b\", \"\"", "\"var = 1\""}) + ")")
@@ -1089,6 +1143,15 @@ func (p *prog) emitRaise(w *fileBuf, li int) {
 		} else {
 			call("KIdent", mark("¤RegExp("+Pick(r, []string{"\"(\"", "\"[a\"", "\")\""})+")"))
 			p.nativeTop("RegExp")
+		}
+	case 38:
+		arr := Pick(r, []string{"Object.freeze([1, 2, 3])", "FA", "FL", "[1, 2]", "Object.seal([1])", "ARR"})
+		if r.Intn(4) == 0 {
+			call("KDot", mark("¤Object.defineProperties("+arr+", {length: {value: "+p.badArg(6)+"}})"))
+			p.nativeTop("defineProperties")
+		} else {
+			call("KDot", mark("¤Object.defineProperty("+arr+", \"length\", {value: "+p.badArg(6)+"})"))
+			p.nativeTop("defineProperty")
 		}
 	case 37:
 		at := mark("new ¤RegExp(" + Pick(r, []string{"\"\\\\\"", "\"a{2,1}\"", "\"*\"", "\"a**\""}) + ")")
@@ -1490,6 +1553,52 @@ func pinnedProgram(r *rand.Rand, k int) *prog {
 			_, id := userName("cb", 1)
 			p.levels = append(p.levels, nat("call"), fn, nat("forEach"), &lvl{kind: fmt.Sprintf("LvFuncNoFile %d %d", id, ef.table)})
 		}
+	case 18: // the receiver of a method call is a new expression: the call site is the `new` keyword
+		p.kind = 10
+		w.w("Object.prototype.f2 = f2;\nfunction f1(a, b) {\n   ")
+		a := w.here()
+		f1.events = append(f1.events, ev("KIdent", mark(w, "new ¤K().f2(1);\n}\nfunction f2(a, b) { ")), ev("KDot", a))
+		f2 := &lvl{kind: "LvFunc 1020 0"}
+		b := w.here()
+		f2.events = append(f2.events, ev("KDot", mark(w, "new ¤NS.K()[\"f3\"](); }\nfunction f3() { ")), ev("KBracket", b))
+		p.raise = rat(mark(w, "¤zz; }\nObject.prototype.f3 = f3;\n"))
+		g.events = append(g.events, ev("KIdent", wrap("¤f1()")))
+		p.levels = append(p.levels, f1, f2, &lvl{kind: "LvFunc 1030 0"})
+	case 19: // errors on a chain that starts with new
+		p.kind = 7
+		w.w("function f1(a, b) {\n     ")
+		at := mark(w, "¤new K().a.b;\n}\n")
+		p.raise = fmt.Sprintf("RAt KDot %d %d %d", at.idx, at.line, at.col)
+		g.events = append(g.events, ev("KIdent", wrap("¤f1()")))
+		p.levels = append(p.levels, f1)
+	case 20, 21, 22, 23: // indirect eval of malformed text: the innermost frame is the built-in, and the limit cuts real frames only
+		p.kind = 18
+		p.limit = 3
+		w.w("function f1(a, b) {\n  ")
+		nat := func(n string) *lvl { return &lvl{kind: fmt.Sprintf("LvNative %d", nameIDs[n])} }
+		p.levels = append(p.levels, f1)
+		switch k {
+		case 20:
+			f1.events = append(f1.events, ev("KIdent", mark(w, "¤EV(\"var = 1\");\n}\n")))
+			p.levels = append(p.levels, nat("eval"))
+		case 21:
+			f1.events = append(f1.events, ev("KDot", mark(w, "¤OE.e(\"a b\");\n}\n")))
+			p.levels = append(p.levels, nat("eval"))
+		case 22:
+			f1.events = append(f1.events, ev("KDot", mark(w, "¤eval.call(null, \"if (\");\n}\n")))
+			p.levels = append(p.levels, nat("call"), nat("eval"))
+		default:
+			f1.events = append(f1.events, ev("KDot", mark(w, "¤[\"1 +* 2\"].map(eval);\n}\n")))
+			p.levels = append(p.levels, nat("map"), nat("eval"))
+		}
+		p.raise = "RNative"
+		g.events = append(g.events, ev("KIdent", wrap("¤f1()")))
+	case 24, 25: // an invalid length stored through [[DefineOwnProperty]], length not writable
+		p.kind = 38
+		at := wrap(map[int]string{24: "¤Object.defineProperty(Object.freeze([1, 2, 3]), \"length\", {value: -1})", 25: "¤Object.defineProperties(FL, {length: {value: 1.5}})"}[k])
+		g.events = append(g.events, ev("KDot", at))
+		p.levels = append(p.levels, &lvl{kind: fmt.Sprintf("LvNative %d", nameIDs[map[int]string{24: "defineProperty", 25: "defineProperties"}[k]])})
+		p.raise = "RNative"
 	case 11: // this.f2(): f1 is an active call with a call site
 		p.kind = 10
 		w.w("function f1(a, b) {\n  return ")
@@ -1772,6 +1881,7 @@ var argFns = []argFn{
 	{4, 1, 21, true, "(1.5).toPrecision(%s)"},
 	{5, 0, 4294967295, false, "new Array(%s)"},
 	{6, 0, 4294967295, false, "ARR.length = %s"},
+	{7, 0, 4294967295, false, "Object.defineProperty(Object.freeze([1, 2, 3]), \"length\", {value: %s})"},
 }
 
 // a finite value of the pool: legal range ends and their neighbours, fractions around them, residues of
@@ -1818,7 +1928,10 @@ func argValue(r *rand.Rand, f argFn) float64 {
 // harness-side oracle, used only to choose arguments (the judge is Spec.spec_throws)
 func argThrows(f argFn, v float64, undef bool) (throws, decided bool) {
 	if undef {
-		return f.id == 6, true
+		return f.id >= 6, true
+	}
+	if f.id == 7 && v == math.Trunc(v) && v >= 0 && v <= 4294967295 && v != 3 {
+		return false, false // a valid other length of a frozen array is the TypeError of step 3.g: not this case type
 	}
 	if f.id >= 5 {
 		return !(v == math.Trunc(v) && v >= 0 && v <= 4294967295), true
@@ -1895,6 +2008,9 @@ func genArg(env *Env, pinned int) {
 		case pinned == 1:
 			f, v = argFns[0], 4294967312
 			arg, coq = "4294967312", coqArg(v)
+		case pinned >= 2: // invalid lengths on an array whose length is not writable
+			f, v = argFns[6], []float64{-1, 1.5, 4294967296}[pinned-2]
+			arg, coq = JSNum(v), coqArg(v)
 		case k == 0:
 			undef = true
 			arg, coq = Pick(r, []string{"undefined", "", "void 0"}), "AUndef"
@@ -2692,10 +2808,11 @@ func runC19(env *Env) {
 		k := k
 		pins = append(pins, func() { genText(env, k) })
 	}
-	for k := 13; k <= 17; k++ {
+	for k := 13; k <= 25; k++ {
 		k := k
 		pins = append(pins, func() { genProgram(env, k) })
 	}
+	pins = append(pins, func() { genArg(env, 2) }, func() { genArg(env, 3) }, func() { genArg(env, 4) })
 	pins = append(pins, func() { genProgram(env, 11) }, func() { genProgram(env, 12) }, func() { genShadow(env, 1) }, func() { genProgram(env, 10) }, func() { genEval(env, 4) }, func() { genEval(env, 44) }, func() { genOrder(env, 1) }, func() { genArg(env, 1) }, func() { genPos(env, 1) }, func() { genPos(env, 2) }, func() { genSyntax(env, 1) },
 		func() { genText(env, 1) }, func() { genFileSet(env, 1) })
 	for _, f := range pins {
